@@ -40,6 +40,16 @@ def run(ctx):
                     q = dict(base)
                     q["maxeval"] = N
                     ps.append(q)
+        # runs that CONVERGE (tolerance reached, final extra steps of the model-based methods), not only budget-limited ones
+        for nm in names:
+            for rep in range(12 if ctx.thorough else 4):
+                p = problems.gen_problem(rng, A, alg_name=nm, with_constraints=False, box=rng.choice(["finite", "big"]), maxeval=3000, allow_max=False)
+                for k in ("stopval", "ftol_rel", "xtol_abs", "maxtime", "clockq", "clock0", "xw"):
+                    p.pop(k, None)
+                p["obj"] = rng.choice([0, 1, 1, 3])
+                p["xtol_rel"] = rng.choice([1e-3, 1e-5, 1e-7])
+                p["quietx"] = 0
+                ps.append(p)
         batch = runcheck.run_batch(ctx, bdir, A, ps, [monitors.mon_best], "incumbent-keeping algorithms")
         ctx.sample({"spec": batch[0][1].spec})
         ctx.cov["unproved"] = ["incumbent bookkeeping inside BOBYQA/NEWUOA (kopt), DIRECT, CRS, ISRES, ESCH, StoGO, NM/Sbplx, PRAXIS: monitor only"]
